@@ -541,6 +541,64 @@ def r20f(ctx):
                    f"the change alters, the index lists the headings of another level than the one requested")
 
 
+def r20h(ctx):
+    """The outline level a caller gives is the one that is written.
+
+    "The table lists exactly the headings whose level is at most its outline level": the level arrives as an argument (of the TOC constructor,
+    of create_toc_source, of the entry-template constructor, of the property setter) and is written as `text:outline-level`.  Python lets a loop
+    reuse the argument's name as its counter; after such a loop the name holds the last counter value, and a write placed after it stores 10
+    whatever the caller asked.  Rule: wherever a function of toc.py writes an outline level (set_attribute("text:outline-level", …), an
+    `outline_level=` keyword, a store to `.outline_level`) from one of its own parameters, the only definitions of that name that reach the
+    write are the parameter itself or a normalisation of it (`p = int(p)`, a default for None).
+    """
+    from ..paths import reaching_defs
+    repo = ctx.repo
+    ctx.rule("R20h", "an outline level written from a parameter is that parameter, not a loop counter of the same name", floor=3)
+    funcs = [f for f in repo.all_funcs() if f.file.endswith("/toc.py") and f.kind != "nested"]
+    n_sites = 0
+    for f in funcs:
+        params = {a.arg for a in f.node.args.posonlyargs + f.node.args.args + f.node.args.kwonlyargs} - {"self", "cls"}
+        sites = []
+        for n in walk_no_nested(f.node):
+            if isinstance(n, ast.Call) and call_name(n) == "set_attribute" and len(n.args) == 2 and repo.fold(n.args[0], f.module) == "text:outline-level":
+                sites.append((n, n.args[1]))
+            if isinstance(n, ast.Call):
+                for kw in n.keywords:
+                    if kw.arg == "outline_level":
+                        sites.append((n, kw.value))
+            if isinstance(n, ast.Assign) and any(isinstance(t, ast.Attribute) and t.attr == "outline_level" for t in n.targets):
+                sites.append((n, n.value))
+        cfg = None
+        for site, val in sites:
+            names = {x.id for x in ast.walk(val) if isinstance(x, ast.Name)} & params
+            if not names:
+                continue
+            n_sites += 1
+            cfg = cfg or cfg_of(f)
+            node = node_of(cfg, site)
+            bad = None
+            for nm in sorted(names):
+                rd = reaching_defs(cfg, nm).get(node.id, frozenset())
+                for d in rd:
+                    if d == cfg.entry.id:
+                        continue
+                    dn = next(x for x in cfg.nodes if x.id == d)
+                    st = dn.stmt
+                    normalising = isinstance(st, (ast.Assign, ast.AnnAssign)) and st.value is not None and any(isinstance(x, ast.Name) and x.id == nm for x in ast.walk(st.value))
+                    constant_default = isinstance(st, ast.Assign) and isinstance(st.value, ast.Constant) and any(
+                        nm in ast.unparse(t) and "None" in ast.unparse(t) for t, _ in structural_guards(st, stop=f.node))
+                    if not (normalising or constant_default):
+                        bad = (nm, st)
+            ctx.instance("R20h", f"{f.file}:{f.ident}", f"{norm(site, 50)}: written from the argument", ok=bad is None, nontrivial=True, line=site.lineno)
+            if bad:
+                nm, st = bad
+                ctx.report("R20h", f, site, f"{norm(val, 30)} <- {type(st).__name__}",
+                           f"{f.ident} writes the outline level from `{nm}`, but by then `{nm}` has been rebound by `{norm(st, 50)}` (line {st.lineno}): what is stored is that "
+                           f"value (the last loop counter), not the level the caller asked for — the table of contents then lists headings deeper than its level")
+    if n_sites < 3:
+        raise AnalysisError(f"R20h: only {n_sites} outline-level write(s) from a parameter found in toc.py")
+
+
 def run(ctx):
     r20a(ctx)
     r20b(ctx)
@@ -549,6 +607,7 @@ def run(ctx):
     r20e(ctx)
     r20f(ctx)
     r20g(ctx)
+    r20h(ctx)
     # fill() filters by self.outline_level: that property must read this TOC's own source element, not the first one of the document (rule shared with C12)
     from ..registry import build_registry
     from .c12 import r12k
@@ -560,6 +619,9 @@ from ..selftest import Seed, unparse_seed  # noqa: E402
 _TOC = "src/odfdo/toc.py"
 _HS = "src/odfdo/scripts/headers.py"
 SEEDS = [
+    Seed("create_toc_source reuses the argument's name as the template loop counter", "fault", _TOC,
+         "        for level in range(1, 11):\n            template = TocEntryTemplate(outline_level=level)\n            if entry_style:\n                template.style = entry_style % level\n            toc_source.append(template)\n",
+         "        for outline_level in range(1, 11):\n            template = TocEntryTemplate(outline_level=outline_level)\n            if entry_style:\n                template.style = entry_style % outline_level\n            toc_source.append(template)\n        toc_source.set_attribute(\"text:outline-level\", str(outline_level))\n", "R20h"),
     Seed("TOC.body setter keeps the old body when a new one is given", "fault", _TOC,
          "        old_body = self.body\n        if old_body is not None:\n            self.delete(old_body)\n        if body is None:\n            body = Element.from_tag(\"text:index-body\")",
          "        if body is None:\n            old_body = self.body\n            if old_body is not None:\n                self.delete(old_body)\n            body = Element.from_tag(\"text:index-body\")", "R20g"),
